@@ -169,7 +169,8 @@ extern void apply_log(point<double> *dest, const linepart &pt, const double *fro
 		double tmp[32];
 		linepart curr = all;
 		if (curr.usr > 32) {
-			curr.usr = 32;
+			// trimmed line end needs its neighbour in the same block
+			curr.usr = (curr.usr == 33 && curr._trim) ? 31 : 32;
 			curr._trim = 0;
 		}
 		for (uint16_t i = 0; i < curr.usr; ++i) {
